@@ -45,6 +45,9 @@ func All() map[string]orch.PropertySpec {
 		"C11": {ID: "C11", Level: "model_checking", Assumptions: append([]string{"for a declared OAEP digest the sender uses the same hash for MGF1 (the only reading under which the exported digest identifiers are usable with this library)"}, trusted...),
 			Rule: "cases are the round-trip sub-spaces of spec/Xmlenc.tla: every advertised data algorithm x {OAEP-MGF1P, OAEP 1.1} x {no digest, each exported digest identifier} and PKCS#1 v1.5 x inline/detached EncryptedKey x recipient certificate absent/matching x SP key supplied by key-store field (TLS store or plain store), by the setter, or both (same or different keys), each compared with its plaintext twin; plus DecryptBytes on random plaintexts of every length residue modulo 16, with and without trailing zero bytes; all replayed; non-trivial = every case",
 			Parts: []orch.Part{{Family: fam.Xmlenc{}, Monitors: []string{"C11"}}}},
+		"C12": {ID: "C12", Level: "model_checking", Assumptions: append([]string{"allocation is measured with runtime.MemStats.TotalAlloc around the call, serially; the bound is 16 x limit + 8 MiB (the unchanged tree allocates about 6 x limit on a bomb, an unbounded read at least the expansion)"}, trusted...),
+			Rule: "cases are the combinations TLC enumerates from spec/Inflate.tla: six inbound entry points x raw / DEFLATE levels 1, 6, 9 x decompressed size natural / limit-1 / limit / limit+1 / 100 x / 1000 x the effective limit x configured limit unset (5 MiB) / 1 / 2 KiB / 64 KiB x accepting / rejecting document; documents are padded with trailing whitespace to the exact size; every compressed case within the limit is compared with its raw twin; non-trivial = every case",
+			Parts: []orch.Part{{Family: fam.Inflate{}, Monitors: []string{"C12"}}}},
 	}
 }
 
